@@ -41,6 +41,27 @@ def silence_cases():
     return out
 
 
+def gen_silence_case(rng):
+    """every loop guard is activated when first handed out; nothing may then come from inside that loop's body (nested loops included)"""
+    evs, deferred = rc.all_ast_events()
+    direct = [e for e in evs if e not in deferred and e not in ("after_while_test",)]
+    events = sorted(set(["after_for_loop_iter", "after_while_loop_iter"] + [e for e in direct if rng.random() < 0.5]))
+    import battery
+    src = battery.programs()["loops"] if rng.random() < 0.2 else rc.gen_program(rng, nstmts=rng.choice([3, 4, 5]))
+    return {"src": src, "events": events, "guards": True, "silence": True, "export": False}
+
+
+def oracle_loop_silence(c, im):
+    f = C01.oracle_case(c, im)
+    if f:
+        return f
+    if im.get("leaks"):
+        l = im["leaks"][0]
+        return {"what": "event %s (%s, line %d) was delivered from inside the body of the loop at lines %s after that loop's guard had been activated"
+                        % (l[0], l[1], l[2], l[3]), "kind": "silence-leak"}
+    return None
+
+
 def oracle_silence(c, im):
     if "instr" not in im or "event_lines" not in im:
         return {"what": "silence template failed to run: %s" % (im.get("crash") or im.get("rewrite_exc") or im.get("compile_exc")), "kind": "silence"}
@@ -78,11 +99,25 @@ def run(ctx, model_ok):
             r["failures"].append(f)
         else:
             ok += 1
+    # general loop silence: generated programs, every loop guard activated at its first hand-out
+    ls = [gen_silence_case(rng) for _ in range(60 if ctx.tier == "quick" else 600)]
+    limpl = C01.run_impl(ls)
+    nsil = 0
+    for c, im in zip(ls, limpl):
+        nsil += im.get("silenced", 0)
+        f = oracle_loop_silence(c, im)
+        if f and sum(1 for x in r["failures"] if x.get("kind") == "silence-leak") < 2:
+            f.update({"case": c, "signature": C01.signature(c, f) if f.get("kind") != "silence-leak" else "unlisted", "kind_": "oracle"})
+            if f["signature"] == "unlisted" or f["signature"] not in {x["signature"] for x in r["failures"]}:
+                r["failures"].append(f)
+    r["evaluations"] += len(ls)
+    r["distribution"]["loop_silence_programs"] = len(ls)
+    r["distribution"]["loop_guards_activated"] = nsil
     r["evaluations"] += len(sc)
     r["distribution"]["silence_templates"] = len(sc)
     r["distribution"]["silence_templates_ok"] = ok
     r["rule"] += ("; C10: every case subscribes to all bracket events (which carry the guard name) plus 35% of the direct events, with a guard schedule "
-                  "(which seen guard, activate/deactivate) consumed at every bracket event; plus 5 silence templates (function guard activated at invocation k)")
+                  "(which seen guard, activate/deactivate) consumed at every bracket event; plus 5 silence templates (function guard activated at invocation k) and 60 generated programs in which every loop guard is activated at its first hand-out (no event may then come from inside that loop body)")
     return r
 
 
@@ -93,4 +128,6 @@ def replay(ctx, rep):
         return None
     if "activate_at" in case:
         return oracle_silence(case, C01.run_impl([case])[0])
+    if case.get("silence"):
+        return oracle_loop_silence(case, C01.run_impl([case])[0])
     return C01.fails_on_impl(case)
